@@ -1,4 +1,202 @@
+(** C20 — Cache.once computes each key at most once under concurrency.
+
+    Statements only; the proofs are in Cache/Proofs.v.  The model (Cache/Model.v) is an interleaving
+    transition system for cache.go: [step s c] is one atomic step of caller c, [reachable cfg s] is
+    the reflexive-transitive closure of [step] from [init cfg]; a configuration gives every caller a
+    list of calls (key, outcome of the callable).  Every theorem is for every configuration (any
+    number of callers, keys, programs) and every schedule.  The model has no re-entrant callable
+    (a callable calling once on the same cache self-deadlocks in the code; out of the property). *)
+From Coq Require Import List NArith Bool Arith.
+Import ListNotations.
 From Dawn Require Import Cache.Model Cache.Run Cache.Proofs.
-Theorem c20_init_reachable : forall cfg, reachable cfg (init cfg).
-Proof. exact init_reachable. Qed.
-Print Assumptions c20_init_reachable.
+
+(** Per key, at most one successful invocation of a callable is ever recorded: the list of values
+    produced by successful invocations for k has length <= 1; equivalently, if the history contains
+    a successful invocation for k, the rest of the history contains no other one. *)
+Theorem once_at_most_once_success : forall cfg s k,
+  reachable cfg s ->
+  length (succ_vals k (hist s)) <= 1 /\
+  (forall h1 h2 c1 v1, hist s = h1 ++ EInvoke c1 k (Ok v1) :: h2 ->
+     forall c2 v2, ~ In (EInvoke c2 k (Ok v2)) (h1 ++ h2)).
+Proof. exact at_most_once_success. Qed.
+Print Assumptions once_at_most_once_success.
+
+(** Every non-error return for key k carries the value stored in entries[k], which is the value of
+    the single successful invocation for k; hence all callers for k receive the same value. *)
+Theorem once_same_value : forall cfg s c k v,
+  reachable cfg s -> In (EReturn c k (RVal v)) (hist s) ->
+  lookup k (entries s) = Some v /\ succ_vals k (hist s) = [v].
+Proof. exact same_value. Qed.
+Print Assumptions once_same_value.
+
+Theorem once_same_value_pair : forall cfg s c1 c2 k v1 v2,
+  reachable cfg s -> In (EReturn c1 k (RVal v1)) (hist s) -> In (EReturn c2 k (RVal v2)) (hist s) -> v1 = v2.
+Proof. exact same_value_pair. Qed.
+Print Assumptions once_same_value_pair.
+
+(** A call whose callable fails: the invocation step leaves entries unchanged and sends the caller
+    to the (deferred) Unlock with the error; the Unlock and the return leave entries unchanged and
+    the caller receives the error.  Globally: a key without a successful invocation has no entry,
+    and every failed invocation by a caller is matched by an error return to that caller (or that
+    return is still pending). *)
+Theorem once_failure_stores_nothing : forall cfg s,
+  reachable cfg s ->
+  (forall c cl k s',
+      nth_error (callers s) c = Some cl -> cur cl = Some ((k, Fail), PCall) -> step s c = Some s' ->
+      entries s' = entries s /\ hist s' = EInvoke c k Fail :: hist s /\
+      nth_error (callers s') c = Some (mkCaller (todo cl) (Some ((k, Fail), PUnlock RErr)))) /\
+  (forall c cl k o s',
+      nth_error (callers s) c = Some cl -> cur cl = Some ((k, o), PUnlock RErr) -> step s c = Some s' ->
+      entries s' = entries s /\ hist s' = hist s /\ writer s' = false /\
+      nth_error (callers s') c = Some (mkCaller (todo cl) (Some ((k, o), PReturn RErr)))) /\
+  (forall c cl k o s',
+      nth_error (callers s) c = Some cl -> cur cl = Some ((k, o), PReturn RErr) -> step s c = Some s' ->
+      entries s' = entries s /\ hist s' = EReturn c k RErr :: hist s /\
+      nth_error (callers s') c = Some (mkCaller (todo cl) None)) /\
+  (forall k, succ_vals k (hist s) = [] -> lookup k (entries s) = None) /\
+  (forall c cl, nth_error (callers s) c = Some cl ->
+      nfail c (hist s) = nerr c (hist s) +
+      match cur cl with Some (_, PUnlock RErr) | Some (_, PReturn RErr) => 1 | _ => 0 end).
+Proof. exact failure_stores_nothing. Qed.
+Print Assumptions once_failure_stores_nothing.
+
+(** Retry: from every reachable state in which key k has no entry (for instance because every
+    invocation for k so far failed) and caller c is about to start a call on k with a succeeding
+    callable, there is a schedule (let every caller inside a lock section leave it, then run c alone)
+    after which k is stored, c has received the stored value, and a callable for k was invoked. *)
+Theorem retry_possible : forall cfg s c k v rest,
+  reachable cfg s -> lookup k (entries s) = None ->
+  nth_error (callers s) c = Some (mkCaller ((k, Ok v) :: rest) None) ->
+  exists sched s', run s sched = Some s' /\
+    exists v', lookup k (entries s') = Some v' /\
+               In (EReturn c k (RVal v')) (hist s') /\
+               succ_vals k (hist s') = [v'] /\
+               1 <= invocations k (hist s').
+Proof. exact retry_possible_lemma. Qed.
+Print Assumptions retry_possible.
+
+(** Plain safety version: whenever the lock is free and k has no entry (whatever failed before), the
+    next call on k DOES invoke its callable; a success is stored and returned, a failure is returned
+    and leaves the state ready for the next attempt (lock free, entries unchanged). *)
+Theorem retry_when_lock_free : forall s c k o rest,
+  readers s = 0 -> writer s = false -> lookup k (entries s) = None ->
+  nth_error (callers s) c = Some (mkCaller ((k, o) :: rest) None) ->
+  match o with
+  | Ok v =>
+      exists s', run s (repeat c 10) = Some s' /\
+                 entries s' = (k, v) :: entries s /\
+                 hist s' = EReturn c k (RVal v) :: EInvoke c k (Ok v) :: ECall c k :: hist s /\
+                 readers s' = 0 /\ writer s' = false /\
+                 nth_error (callers s') c = Some (mkCaller rest None)
+  | Fail =>
+      exists s', run s (repeat c 9) = Some s' /\
+                 entries s' = entries s /\
+                 hist s' = EReturn c k RErr :: EInvoke c k Fail :: ECall c k :: hist s /\
+                 readers s' = 0 /\ writer s' = false /\
+                 nth_error (callers s') c = Some (mkCaller rest None)
+  end.
+Proof. exact retry_lock_free. Qed.
+Print Assumptions retry_when_lock_free.
+
+Theorem failed_call_then_retry_succeeds : forall s c k v rest,
+  readers s = 0 -> writer s = false -> lookup k (entries s) = None ->
+  nth_error (callers s) c = Some (mkCaller ((k, Fail) :: (k, Ok v) :: rest) None) ->
+  exists s', run s (repeat c 19) = Some s' /\
+             entries s' = (k, v) :: entries s /\
+             hist s' = EReturn c k (RVal v) :: EInvoke c k (Ok v) :: ECall c k ::
+                       EReturn c k RErr :: EInvoke c k Fail :: ECall c k :: hist s.
+Proof. exact fail_then_retry. Qed.
+Print Assumptions failed_call_then_retry_succeeds.
+
+(** The invariant: readers = number of callers between RLock and RUnlock; the writer flag is set
+    iff exactly one caller is between Lock and Unlock (b2n writer = that number); entries only grow
+    (an entry Some v stays Some v, for one step and along every schedule); entries change only by
+    the store step of a caller holding the write lock, after its recheck missed (the key has no
+    entry) and its callable succeeded with the stored value. *)
+Theorem cache_invariant : forall cfg s,
+  reachable cfg s ->
+  readers s = n_reading s /\
+  b2n (writer s) = n_writing s /\
+  (forall c s', step s c = Some s' ->
+     (forall k v, lookup k (entries s) = Some v -> lookup k (entries s') = Some v) /\
+     (entries s' = entries s \/
+      exists cl k v, nth_error (callers s) c = Some cl /\ cur cl = Some ((k, Ok v), PStore v) /\
+                     writer s = true /\ lookup k (entries s) = None /\ succ_vals k (hist s) = [v] /\
+                     entries s' = (k, v) :: entries s)) /\
+  (forall sched s' k v, run s sched = Some s' -> lookup k (entries s) = Some v -> lookup k (entries s') = Some v).
+Proof. exact cache_inv. Qed.
+Print Assumptions cache_invariant.
+
+(** A caller inside a lock section can always take its next step (so the Go fatal errors "RUnlock /
+    Unlock of unlocked RWMutex", modelled as disabled steps, are unreachable and nobody holds the
+    lock forever). *)
+Theorem lock_holder_can_step : forall cfg s c cl,
+  reachable cfg s -> nth_error (callers s) c = Some cl -> in_read cl = true \/ in_write cl = true ->
+  exists s', step s c = Some s'.
+Proof. exact holder_can_step_reach. Qed.
+Print Assumptions lock_holder_can_step.
+
+(** Deadlock freedom (callables are not re-entrant in the model): in every reachable state in which
+    some caller has not finished, some caller can step. *)
+Theorem once_deadlock_free : forall cfg s,
+  reachable cfg s -> all_done s = false -> exists c s', step s c = Some s'.
+Proof. exact deadlock_free. Qed.
+Print Assumptions once_deadlock_free.
+
+(** The acceptance function used by the correspondence check is sound: an accepted case exhibits a
+    real execution of the model with exactly the observed history and final entries. *)
+Theorem accepts_sound : forall c,
+  accepts c = true ->
+  exists s, run (init (c_cfg c)) (expand (c_blocks c)) = Some s /\
+            reachable (c_cfg c) s /\
+            rev (hist s) = c_obs c /\
+            all_done s = true /\
+            (forall k ov, In (k, ov) (c_final c) -> lookup k (entries s) = ov).
+Proof. exact accepts_sound_lemma. Qed.
+Print Assumptions accepts_sound.
+
+(** ---- tests (not claims): exhaustive exploration of ALL interleavings of tiny configurations ---- *)
+Open Scope N_scope.
+
+(* two callers, one key, both callables would succeed *)
+Example test_all_interleavings_ok_ok : all_interleavings_ok [[(0, Ok 1)]; [(0, Ok 2)]] = true.
+Proof. vm_compute. reflexivity. Qed.
+
+(* one failing and one succeeding callable; two failing callables *)
+Example test_all_interleavings_fail_ok : all_interleavings_ok [[(0, Fail)]; [(0, Ok 2)]] = true.
+Proof. vm_compute. reflexivity. Qed.
+Example test_all_interleavings_fail_fail : all_interleavings_ok [[(0, Fail)]; [(0, Fail)]] = true.
+Proof. vm_compute. reflexivity. Qed.
+
+(* a caller that fails and retries, against a concurrent succeeding caller *)
+Example test_all_interleavings_retry : all_interleavings_ok [[(0, Fail); (0, Ok 1)]; [(0, Ok 2)]] = true.
+Proof. vm_compute. reflexivity. Qed.
+
+(* the explorer does report a false property as false (5 events are produced in every full run) *)
+Example test_explorer_detects :
+  explore 22 (fun s => Nat.leb (length (hist s)) 4) (init [[(0, Ok 1)]; [(0, Ok 2)]]) = false.
+Proof. vm_compute. reflexivity. Qed.
+
+(* the hypotheses of retry_possible are satisfiable: after caller 0's callable failed, key 0 has no
+   entry and caller 1 is about to call once on key 0 *)
+Example test_retry_hypotheses :
+  exists s, reachable [[(0, Fail)]; [(0, Ok 7)]] s /\ lookup 0 (entries s) = None /\
+            nfail 0%nat (hist s) = 1%nat /\
+            nth_error (callers s) 1 = Some (mkCaller [(0, Ok 7)] None).
+Proof.
+  destruct (run (init [[(0, Fail)]; [(0, Ok 7)]]) (repeat 0%nat 9)) as [s|] eqn:E; [|vm_compute in E; discriminate].
+  exists s. split; [eapply run_reachable; [constructor|exact E]|].
+  vm_compute in E. inversion E; subst. vm_compute. auto.
+Qed.
+
+(* both a matching and a non-matching observed history through the acceptance function *)
+Example test_accepts_good :
+  accepts (mkCase [[(0, Ok 1)]; [(0, Ok 2)]] [(0, 1); (1, 1); (1, 8); (0, 4); (1, 1)]%nat
+                  [ECall 0 0; ECall 1 0; EInvoke 1 0 (Ok 2); EReturn 0 0 (RVal 2); EReturn 1 0 (RVal 2)]
+                  [(0, Some 2)]) = true.
+Proof. vm_compute. reflexivity. Qed.
+Example test_accepts_rejects_double_invocation :
+  accepts (mkCase [[(0, Ok 1)]; [(0, Ok 2)]] [(0, 1); (1, 1); (1, 8); (0, 8); (0, 1); (1, 1)]%nat
+                  [ECall 0 0; ECall 1 0; EInvoke 1 0 (Ok 2); EInvoke 0 0 (Ok 1); EReturn 0 0 (RVal 1); EReturn 1 0 (RVal 2)]
+                  [(0, Some 1)]) = false.
+Proof. vm_compute. reflexivity. Qed.
